@@ -16,7 +16,7 @@ RULE = ("one case = one generated grammar (unbiased / mostly non-left-recursive 
         "call sequence and parse with keyword arguments (debug, do_cleanup, src_name, start symbol) - any exception other than "
         "ParsingError afterwards is a violation; layered expression-like grammars of 8-40 levels with "
         "exponentially many token-free paths (constructor must give its verdict within the line budget); "
-        "keys with an empty list of alternatives in recursive and non-recursive grammars; long inputs; two threads on one parser "
+        "keys that derive nothing ([] or only AnyTokenExcept(every token)) anywhere in an alternative, also in front of the symbol itself, in recursive and non-recursive grammars; a non-terminal occurring 2-3 times in one production; long inputs; two threads on one parser "
         "object for every 40th accepted grammar), constructed with smart_factorization True and False, each followed by every token "
         "string up to the tier's length plus sampled sentences; the real constructor and parse run under a line-event "
         "budget (sys.settrace); non-trivial = at least one tree and one ParsingError, or the reference test says "
